@@ -217,18 +217,48 @@ def run(ctx, eng):
            node=fi.node)
     # the stream that is closed by _open_streams keeps its closed_by
     fi = eng.m.func(H + '_open_streams')
-    ok = False
+    ok = None
+    why = ''
     for p in eng.I.run(fi):
         for e in p.events:
             if e.kind == 'store' and cm.attr_chain(e.container) == \
                     'self._closed_streams':
                 v = e.value
-                ok = v[0] == 'a' and v[2] == 'closed_by'
-    ctx.ob('PAIR.closed-record', fi.qual, 'cleanup keeps closed_by', ok,
+                good = v[0] == 'a' and v[2] == 'closed_by' and \
+                    _stream_at(v[1], e.key)
+                if not good:
+                    why = ' (found _closed_streams[%s] = %s)' % (
+                        cm.show0(e.key)[:40], cm.show0(v)[:80])
+                ok = good if ok is None else (ok and good)
+    ctx.ob('PAIR.closed-record', fi.qual, 'cleanup keeps closed_by', bool(ok),
            'a stream removed from `streams` is stored in `_closed_streams` '
-           'with its closed_by', node=fi.node)
+           'under its id with its own closed_by' + why, node=fi.node)
     ctx.assume('schedules as such are not enumerated; the bound of '
                '_closed_streams is taken as documented')
+
+
+def _stream_at(term, key):
+    """term reads the stream table at `key`: streams[key], streams.pop(key)
+    or streams.get(key)."""
+    def table(t):
+        return t[0] == 'a' and t[2] == 'streams'
+    if term[0] == 'sub':
+        return table(term[1]) and term[2] == key
+    if term[0] == 'call' and term[1] in ('.pop', '.get') and \
+            len(term[2]) >= 2:
+        return table(term[2][0]) and term[2][1] == key
+    if term[0] == 'lv' and key[0] == 'lv' and len(term) == 4 and \
+            len(key) == 4:
+        # the value and the key of the same step of one loop over
+        # streams.items()
+        it = term[2]
+        while it[0] == 'call' and it[1] in ('list', 'tuple', 'sorted') and \
+                it[2]:
+            it = it[2][0]
+        return term[1] == key[1] and term[2] == key[2] and \
+            (key[3], term[3]) == (0, 1) and it[0] == 'call' and \
+            it[1] == '.items' and bool(it[2]) and table(it[2][0])
+    return False
 
 
 def check_push_leniency(ctx, eng):
